@@ -22,10 +22,17 @@ def u16be (n : Nat) : Bytes := [ (n / 2^8 % 256).toUInt8, (n % 256).toUInt8 ]
 /-- an `i64` given as an integer in range, two's complement big endian -/
 def i64be (z : Int) : Bytes := u64be (if z < 0 then (z + 2 ^ 64).toNat else z.toNat)
 
+/-- how `phi_f` enters the hash and `==` (after the `fix:` commit): a value the fixed representation holds by its
+U8F24 pattern, any other value (negative, ≥ 256, non-finite) by its IEEE bits behind a tag -/
+inductive Phi where
+  | fixed (v : Nat)       -- `U8F24::checked_from_num(phi_f) = Some v`: the 32-bit pattern
+  | raw (bits : Nat)      -- `None`: `phi_f.to_bits()`
+  deriving DecidableEq, Repr
+
 structure Params where
   k : Nat
   m : Nat
-  phiFixed : Nat          -- `U8F24::from_num(phi_f)` as its 32-bit pattern
+  phi : Phi
   deriving DecidableEq, Repr
 
 structure Party where
@@ -61,7 +68,14 @@ structure Cert where
 
 variable (H : Bytes → Bytes)
 
-def paramsSegs (p : Params) : List Bytes := [u64be p.k, u64be p.m, u32be p.phiFixed]
+/-- `b"phi_f out of range"` -/
+def phiTag : Bytes := [112, 104, 105, 95, 102, 32, 111, 117, 116, 32, 111, 102, 32, 114, 97, 110, 103, 101]
+
+def phiSeg : Phi → Bytes
+  | .fixed v => u32be v
+  | .raw b => phiTag ++ u64be b
+
+def paramsSegs (p : Params) : List Bytes := [u64be p.k, u64be p.m, phiSeg p.phi]
 def paramsHash (p : Params) : Bytes := hexOf (H (paramsSegs p).flatten)
 
 def partySegs (p : Party) : List Bytes := [p.id, u64be p.stake]
@@ -172,5 +186,26 @@ theorem hexH_eq (x y : Bytes) (h : hexOf (H x) = hexOf (H y)) : x = y ∨ Collis
   by_cases he : x = y
   · exact Or.inl he
   · exact Or.inr ⟨x, y, he, this⟩
+
+def PhiOk : Phi → Prop
+  | .fixed v => v < 2 ^ 32
+  | .raw b => b < 2 ^ 64
+
+theorem phiSeg_inj {a b : Phi} (ha : PhiOk a) (hb : PhiOk b) (h : phiSeg a = phiSeg b) : a = b := by
+  cases a with
+  | fixed v =>
+    cases b with
+    | fixed w => exact congrArg Phi.fixed (u32be_inj ha hb h)
+    | raw w =>
+      have := congrArg List.length h
+      simp [phiSeg, phiTag, u32be, u64be] at this
+  | raw v =>
+    cases b with
+    | fixed w =>
+      have := congrArg List.length h
+      simp [phiSeg, phiTag, u32be, u64be] at this
+    | raw w =>
+      simp only [phiSeg] at h
+      exact congrArg Phi.raw (u64be_inj ha hb (List.append_cancel_left h))
 
 end CertModel
